@@ -150,8 +150,8 @@ func (w *c01World) close() {
 		f()
 	}
 	if w.ts != nil {
-		w.ts.CloseClientConnections()
-		w.ts.Close()
+		closeClientConns(w.ts)
+		closeTS(w.ts)
 	}
 	if w.dir != "" {
 		os.RemoveAll(w.dir)
